@@ -7,6 +7,7 @@ import (
 	"go/ast"
 	"go/token"
 	"go/types"
+	"regexp"
 	"sort"
 	"strings"
 )
@@ -60,6 +61,18 @@ func (c *Ctx) callSites(fn *types.Func) []callSite {
 					cs.InLoop = loops[0] // outermost enclosing loop
 				}
 				out = append(out, cs)
+			} else if cal == nil {
+				// a call through a local function variable (loop over a table of method values)
+				for _, ic := range IndirectCallees(info, decl.Body, x) {
+					if c.P.Decls[ic] == nil {
+						continue
+					}
+					cs := callSite{Call: x, Callee: ic}
+					if len(loops) > 0 {
+						cs.InLoop = loops[0]
+					}
+					out = append(out, cs)
+				}
 			}
 		}
 		return true
@@ -431,8 +444,13 @@ func checkC12(c *Ctx) {
 				if n := countCalls(c, fn, cs.Callee); n > 1 {
 					key += fmt.Sprintf(" (site %d)", siteIndex(c, fn, cs))
 				}
+				if h != ErrPropagated {
+					// identity of a swallow site: package, callee and the shape of the test (identifiers erased) —
+					// not the enclosing function, which a clean-up may rename or split
+					key = fmt.Sprintf("%s swallows the result of %s: %s", pkgShort(strings.TrimPrefix(fn.Pkg().Path(), modPath+"/")), FuncName(cs.Callee), swallowShape(why))
+				}
 				r.Check(h == ErrPropagated, "R12c", key, c.P.Pos(cs.Call.Pos()),
-					"a rule violation detected here does not stop generation: "+why)
+					"a rule violation detected here does not stop generation: "+why+" (in "+FuncName(fn)+")")
 			}
 		}
 	}
@@ -668,4 +686,21 @@ func siteIndex(c *Ctx, fn *types.Func, target callSite) int {
 		}
 	}
 	return 0
+}
+
+var identRe = regexp.MustCompile(`[A-Za-z_][A-Za-z0-9_.]*`)
+
+// swallowShape erases the identifiers of the quoted condition in a classifyErrorUse explanation.
+func swallowShape(why string) string {
+	i, j := strings.Index(why, "("), strings.LastIndex(why, ")")
+	if i < 0 || j < i {
+		return why
+	}
+	cond := identRe.ReplaceAllStringFunc(why[i+1:j], func(id string) string {
+		if id == "nil" || id == "true" || id == "false" {
+			return id
+		}
+		return "v"
+	})
+	return why[:i] + "(" + cond + ")"
 }
